@@ -188,6 +188,26 @@ def check_named_tuples(parsed):
                         raise Violation("parse-differs:restrictions", "not a BuildRestriction: %r" % (t,))
 
 
+def scribble(rels):
+    """Modify a relation structure in place at every level (the caller owns it)."""
+    for alts in rels:
+        for r in alts:
+            if isinstance(r.get("arch"), list):
+                r["arch"].append(PkgRelation.ArchRestriction(False, "zz-scribble"))
+            if isinstance(r.get("restrictions"), list):
+                for g in r["restrictions"]:
+                    if isinstance(g, list):
+                        g.append(PkgRelation.BuildRestriction(True, "zzscribble"))
+                r["restrictions"].append([PkgRelation.BuildRestriction(False, "zzgroup")])
+            r["name"] = "zz-scribbled"
+            r["version"] = ("<<", "0~scribble")
+            r["archqual"] = "zz"
+        alts.append({"name": "zz-extra", "archqual": None, "version": None, "arch": None,
+                     "restrictions": None})
+    rels.append([{"name": "zz-extra", "archqual": None, "version": None, "arch": None,
+                  "restrictions": None}])
+
+
 def mask_of(r):
     return "".join(c if r[k] is not None else "-" for c, k in
                    zip("qvar", ["archqual", "version", "arch", "restrictions"]))
@@ -215,6 +235,25 @@ def check(case):
     s2 = PkgRelation.str(parsed)
     if s2 != s:
         raise Violation("str-not-idempotent", "%s then %s" % (short(s, 160), short(s2, 160)))
+
+    # Results belong to the caller: scribbling over what an earlier call handed out (and over the
+    # structure that was formatted) must not influence a later call on the same text.
+    scribble(parsed)
+    with warnings.catch_warnings(record=True) as caught:
+        warnings.simplefilter("always")
+        again = PkgRelation.parse_relations(s)
+    if caught:
+        raise Violation("warning-on-formatted-relation",
+                        "second parse: %s -> %s" % (short(s, 160), short(str(caught[0].message), 160)))
+    d = first_difference(again, exp)
+    if d is not None:
+        raise Violation("parse-depends-on-earlier-result:" + d[0],
+                        "%s parsed again after the first result was modified in place: %s" % (
+                            short(s, 160), d[1]))
+    scribble(rels)
+    s3 = PkgRelation.str(to_library(case))
+    if s3 != s:
+        raise Violation("str-depends-on-earlier-input", "%s then %s" % (short(s, 160), short(s3, 160)))
 
     # the same through the relationship mixin (dict input, text input, a source-package class)
     with warnings.catch_warnings(record=True) as caught:
